@@ -22,10 +22,10 @@ RULE = (
 )
 ASSUMPTIONS = ["layer functions behave as functions of their argument only"]
 
-MAP_FN = [None, [["app", "m"]], [["raisearg", "E1"]], [["futarg", "done"]], [["nonfut"]]]
+MAP_FN = [None, [["app", "m"]], [["raisearg", "E1"]], [["futarg", "done"]], [["nonfut"]], [["ret", None]]]
 MAP_ERR = [None, [["app", "h"]], [["reraise"]], [["raisearg", "E2"]], [["retexc"]]]
-FLAT_FN = [None, [["futarg", "done"]], [["futarg", "err", "E2"]], [["futarg", "cancelled"]], [["fut", "src", "i0"]], [["raisearg", "E1"]], [["nonfut"]], [["app", "m"]]]
-FLAT_ERR = [None, [["futarg", "done"]], [["futarg", "err", "E3"]], [["futarg", "cancelled"]], [["fut", "src", "i1"]], [["reraise"]], [["raisearg", "E2"]], [["nonfut"]]]
+FLAT_FN = [None, [["futarg", "done"]], [["futarg", "err", "E2"]], [["futarg", "cancelled"]], [["fut", "src", "i0"]], [["raisearg", "E1"]], [["nonfut"]], [["app", "m"]], [["ret", None]], [["ret", 0]], [["ret", []]]]
+FLAT_ERR = [None, [["futarg", "done"]], [["futarg", "err", "E3"]], [["futarg", "cancelled"]], [["fut", "src", "i1"]], [["reraise"]], [["raisearg", "E2"]], [["nonfut"]], [["ret", None]], [["ret", ""]]]
 INNER = [["value"], ["error", "E2"], ["cancel"]]
 
 
